@@ -195,6 +195,11 @@ func engineGen(g *eng.Gen, variant string, i int) {
 	case "pre":
 		g.Pre = true
 		g.CatchBias = i%3 == 1
+	case "api":
+		// the less travelled parts of the public API: WithCoercer on every schema kind (also through Ptr),
+		// custom and Preprocess schemas used directly
+		g.Coercers = true
+		g.TopAll = true
 	default:
 		if i%3 == 1 {
 			g.CatchBias = true
